@@ -37,6 +37,7 @@ pub struct Norm<'a> {
     pub errors: Vec<String>,
     pub closure_depth: usize,
     pub canaries: Vec<String>,
+    pub ret_ty: Option<Type>, // declared return type: R-RETBIND annotates `let r: T = tail;` so coercions at the return site still apply
     pub mut_slices: Vec<String>, // parameters of type `&mut [T]` (R-SLICEPAT binds `&mut s[k]` for them)
 }
 
@@ -50,7 +51,7 @@ impl<'a> Norm<'a> {
             loop_no: 0, closure_no: 0, if_no: 0, match_no: 0, assert_no: 0, return_no: 0, forpat_no: 0, tmp_no: 0,
             call_no: Default::default(), let_no: Default::default(), hoisted: vec![], log: Default::default(),
             raws: vec![], used_anchors: Default::default(), avail_anchors: Default::default(), errors: vec![],
-            closure_depth: 0, canaries: vec![], mut_slices: vec![],
+            closure_depth: 0, canaries: vec![], mut_slices: vec![], ret_ty: None,
         }
     }
     pub fn bump(&mut self, r: &str) {
@@ -761,7 +762,7 @@ impl<'a> VisitMut for Norm<'a> {
                 if !pre.is_empty() || can.is_some() {
                     let rn = Ident::new(&self.spec.ret_name, Span::call_site());
                     let mut blk: Block = parse_quote!({});
-                    if let Some(x) = &r.expr { blk.stmts.push(parse_quote!(let #rn = #x;)); }
+                    if let Some(x) = &r.expr { match &self.ret_ty { Some(t) => blk.stmts.push(parse_quote!(let #rn: #t = #x;)), None => blk.stmts.push(parse_quote!(let #rn = #x;)) } }
                     blk.stmts.extend(pre);
                     blk.stmts.extend(can);
                     if r.expr.is_some() { blk.stmts.push(parse_quote!(return #rn;)); } else { blk.stmts.push(parse_quote!(return;)); }
@@ -977,7 +978,7 @@ impl<'a> Norm<'a> {
                 if !ret.is_empty() || can.is_some() {
                     // a diverging tail (e.g. `loop {}` / if-else with returns) is bound too; harmless
                     let rn = Ident::new(&self.spec.ret_name, Span::call_site());
-                    block.stmts.push(parse_quote!(let #rn = #t;));
+                    match &self.ret_ty { Some(ty) => block.stmts.push(parse_quote!(let #rn: #ty = #t;)), None => block.stmts.push(parse_quote!(let #rn = #t;)) }
                     block.stmts.extend(ret);
                     block.stmts.extend(can);
                     block.stmts.push(Stmt::Expr(parse_quote!(#rn), None));
